@@ -40,8 +40,10 @@ def _paths(body):
                 if p and isinstance(p[-1], (ast.Return, ast.Raise)):
                     new.append(p)
                     continue
-                for q in a + b:
-                    new.append(p + [('test', st.test)] + q)
+                for q in a:
+                    new.append(p + [('test', st.test, True)] + q)
+                for q in b:
+                    new.append(p + [('test', st.test, False)] + q)
             paths = new
         elif isinstance(st, ast.Try) and any(isinstance(n, ast.Return) for n in ast.walk(st)):
             # a try statement that can return: either its body runs to the end, or a handler takes over
@@ -1119,6 +1121,38 @@ def rule_arg_ro(ctx):
             r.unknown(fi.site(c), why + ': ' + norm(c))
     r.floor = 400
     r.stats = {'entry_points': len(eps)}
+    return r
+
+
+def rule_class_state(ctx):
+    r = RuleResult('R-class-state', 'no kernel or UTPM method modifies in place an array that lives in class-level state (a cache filled once, '
+                                    '`cls._cache[N] = fresh`, is a memo; arithmetic on the cached object through an alias changes what every later call '
+                                    'receives: the result then depends on the calls made before)')
+    eff = ctx.effects
+    n = 0
+    for fi in entry_points(ctx):
+        sm = eff.sums[fi]
+        me = fi.params[0] if fi.kind == 'classmethod' and fi.params else None
+        n += 1
+        bad = False
+        for ev in sm.events:
+            if ev.kind.startswith('call:'):
+                continue
+            if not any((x == ('p', me) and me is not None) or x == ('g', 'class-state') for x in ev.roots):
+                continue
+            st = ev.node
+            # memo fill: a plain store whose target is spelled from the class object itself
+            tg = st.targets if isinstance(st, ast.Assign) else []
+            direct = [t for t in tg if isinstance(t, (ast.Subscript, ast.Attribute)) and _store_bases(t) == [me]]
+            if isinstance(st, ast.Assign) and direct:
+                r.note('%s: `%s` fills class-level state (memo)' % (fi.qualname, norm(st)[:70]))
+                continue
+            bad = True
+            r.bad(Finding('R-class-state', _f(fi), norm(st)[:100], '%s modifies an object held in class-level state in place: `%s` - every later call receives the '
+                                                                    'modified object (history dependence)' % (fi.qualname, norm(st)[:80]), fi.file, getattr(st, 'lineno', fi.lineno)))
+        if not bad:
+            r.ok(construct=_f(fi) + ':class-state')
+    r.floor = 250
     return r
 
 
